@@ -265,11 +265,17 @@ func deep16(c caseC16) (viol string) {
 	if len(c.Src) > 20000 {
 		return "" // traces of the big-program families run to megabytes
 	}
-	var t1, t2 bytes.Buffer
-	bcl.Execute(p, bcl.OptOutput(&t1), bcl.OptLogger(io.Discard), bcl.OptTrace(true))
-	bcl.Execute(p, bcl.OptOutput(&t2), bcl.OptLogger(io.Discard), bcl.OptTrace(true))
-	if t1.String() != t2.String() {
-		return "two traced runs of the same Prog print different traces (executing a Prog altered it): " + firstDiff(t1.String(), t2.String())
+	// the trace goes to the writer the Prog was parsed with, the execution
+	// statistics to the writer of the Execute call: both are compared
+	var x1, x2 bytes.Buffer
+	out.Reset()
+	bcl.Execute(p, bcl.OptOutput(&x1), bcl.OptLogger(io.Discard), bcl.OptTrace(true), bcl.OptStats(true))
+	t1 := out.String() + "\x00" + x1.String()
+	out.Reset()
+	bcl.Execute(p, bcl.OptOutput(&x2), bcl.OptLogger(io.Discard), bcl.OptTrace(true), bcl.OptStats(true))
+	t2 := out.String() + "\x00" + x2.String()
+	if t1 != t2 {
+		return "two traced runs of the same Prog print different traces (executing a Prog altered it): " + firstDiff(t1, t2)
 	}
 	return ""
 }
@@ -462,7 +468,10 @@ func genC16(t *rapid.T) (caseC16, bool, []string) {
 		lay := gen.GenLayout(t, toks, gen.LayoutOpts{Plain: 85})
 		if gen.Chance(t, 4, "farright") {
 			// positions far down and far to the right (many digits in 'line:column')
-			lay.Gaps[0] = strings.Repeat("\n", gen.Pick(t, "down", []int{0, 9, 12, 100})) + lay.Gaps[0] + strings.Repeat(" ", gen.Pick(t, "right", []int{100, 1200, 3000}))
+			lay.Gaps[0] = strings.Repeat("\n", gen.Pick(t, "down", []int{0, 9, 12, 100})) + lay.Gaps[0]
+			// ... from some token on (short positions first, long ones later)
+			k := gen.Uniform(t, len(lay.Gaps), "rightat")
+			lay.Gaps[k] += strings.Repeat(" ", gen.Pick(t, "right", []int{100, 1200, 3000}))
 			feats = append(feats, "prog:wide-positions")
 		}
 		src, _ := renderChecked(toks, lay)
